@@ -167,6 +167,55 @@ Section Counter.
   Qed.
 End Counter.
 
+(* ---------- an engine: limits after the first connection ---------- *)
+(* if the engine starts, the label length the compiler will use fits the identifier limit then in force
+   (which is the detected one unless the user fixed it) *)
+Lemma initialize_ok : forall cls user ll det m, initialize cls user ll det = Ok m ->
+  m = (if truthy user then py_or user cls else py_or det (py_or user cls)) /\ py_or ll m <= m.
+Proof.
+  intros cls user ll det m H. unfold initialize in H.
+  set (m1 := if truthy user then py_or user cls else py_or det (py_or user cls)) in *.
+  destruct (truthy ll && (py_or ll 0 >? m1)) eqn:E; [discriminate|]. inversion H; subst m. split; [reflexivity|].
+  apply andb_false_iff in E. destruct ll as [z|]; cbn [py_or truthy] in *.
+  - destruct (z =? 0) eqn:Z0; [lia|]. destruct E as [E|E]; [discriminate|].
+    pose proof (Zgt_cases z m1) as G. rewrite E in G. lia.
+  - lia.
+Qed.
+(* ... and it refuses to start exactly when a label_length above that limit was asked for *)
+Lemma initialize_error_iff : forall cls user ll det e, initialize cls user ll det = Raise e <->
+  (e = ArgumentError /\ exists l, ll = Some l /\ l <> 0
+     /\ (if truthy user then py_or user cls else py_or det (py_or user cls)) < l).
+Proof.
+  intros cls user ll det e. unfold initialize.
+  set (m1 := if truthy user then py_or user cls else py_or det (py_or user cls)).
+  destruct ll as [z|]; cbn [truthy py_or andb].
+  - destruct (z =? 0) eqn:Z0; cbn [negb andb].
+    + split; [discriminate|]. intros (_ & l & E & Hn & _). inversion E; subst. apply Z.eqb_eq in Z0. contradiction.
+    + destruct (z >? m1) eqn:G.
+      * apply Z.gtb_lt in G. apply Z.eqb_neq in Z0. split; [intro H; inversion H; split; [reflexivity|exists z; auto]|].
+        intros (-> & _). reflexivity.
+      * pose proof (Zgt_cases z m1) as G'. rewrite G in G'. split; [discriminate|].
+        intros (_ & l & E & _ & Hl). inversion E; subst. lia.
+  - split; [discriminate|]. intros (_ & l & E & _). discriminate.
+Qed.
+
+Section EngineLabels.
+  Variable benv : N -> bindrec.
+  (* labels, aliases and anonymous bind names compiled through a started engine fit the identifier limit
+     in force after the first connection *)
+  Theorem engine_labels_within_identifier_limit : forall cls user ll det m rs st os,
+    initialize cls user ll det = Ok m -> 6 <= py_or ll m -> (N.of_nat (length rs) < hex_limit)%N ->
+    run benv (py_or ll m) init_state rs = Ok (st, os) ->
+    (forall c n o, In (RName c (LTrunc n), o) (combine rs os) -> slen o <= m)
+    /\ (forall oid t o, In (RBind oid, o) (combine rs os) -> b_key (benv oid) = BTrunc t -> slen o <= m).
+  Proof.
+    intros cls user ll det m rs st os Hi H6 Hn Hr. destruct (initialize_ok _ _ _ _ _ Hi) as (_ & Hle).
+    destruct (run_len_bounded benv _ _ _ _ H6 Hn Hr) as (A & B). split.
+    - intros c n o Hin. specialize (A c n o Hin). lia.
+    - intros oid t o Hin K. specialize (B oid t o Hin K). lia.
+  Qed.
+End EngineLabels.
+
 (* ---------- concrete refutations (witnesses evaluated by the kernel) ---------- *)
 Definition no_binds : N -> bindrec := fun _ => {| b_key := BPlain []; b_unique := false; b_expanding := false |}.
 Definition s_of (l : list N) : str := l.
